@@ -36,6 +36,7 @@ func init() {
 		c05NoSessionOnReject(c)
 		c05MountPath(c)
 		c05UpgradeRejection(c)
+		c05QueryAccessors(c)
 	})
 }
 
@@ -995,4 +996,36 @@ func c05UpgradeRejection(c *core.Ctx) {
 		}
 	}
 	c.Check(R, "engine.abortUpgrade/close-frame-carries-message", au.Pos(), okWS && okWT, keyf("websocket close frame=%v, webtransport session error=%v", okWS, okWT))
+}
+
+// c05QueryAccessors — C05.9: the admission checks and the dispatch must read the same value of a repeated query key.
+func c05QueryAccessors(c *core.Ctx) {
+	const R = "C05.9"
+	c.Rule(R, "sibling agreement on query parameters: every read of the admission-relevant keys sid, transport, EIO (and j, b64) in engine/ and transports/ selects the same value of a repeated key — the last one (Peek / Get / GetLast) or presence (Has); a site that reads the first value (GetFirst) or the list (Gets) while Verify reads the last lets `sid=&sid=<live id>` be admitted as an existing session and dispatched as a handshake, bypassing the handshake-only checks")
+	keys := map[string]bool{"sid": true, "transport": true, "EIO": true, "j": true, "b64": true}
+	class := map[string]string{"Peek": "last", "Get": "last", "GetLast": "last", "Has": "presence", "GetFirst": "first", "Gets": "all"}
+	n := 0
+	for _, u := range c.P.Units {
+		if u.Pkg != c.P.Pkgs["engine"] && u.Pkg != c.P.Pkgs["transports"] {
+			continue
+		}
+		for _, cl := range u.Calls() {
+			cls, isAcc := class[cl.Name]
+			if !isAcc || cl.Recv == nil || core.TypeName(u.Info().TypeOf(cl.Recv)) != "ParameterBag" {
+				continue
+			}
+			// only the request query (ctx.Query()), not header bags
+			if ce, isC := ast.Unparen(cl.Recv).(*ast.CallExpr); !isC || calleeNameOf(ce) != "Query" {
+				continue
+			}
+			k, isS := core.ConstString(u.Info(), cl.Arg(0))
+			if !isS || !keys[k] {
+				continue
+			}
+			n++
+			c.Touch(u)
+			c.Check(R, keyf("%s/Query().%s(%q)", u.Key, cl.Name, k), cl.Pos(), cls == "last" || cls == "presence", keyf("value selection %q (all sites must agree on the last value)", cls))
+		}
+	}
+	c.Need(R, "reads of admission-relevant query keys", n, 10)
 }
